@@ -225,7 +225,7 @@ def _nonempty(g):
     return g is not None and g is not False and g != 0
 
 
-FINE = {"tick": 0.123457, "offset": 0.000013, "base": A._BASES[0], "rot": 0}  # prices with 6 significant decimals
+FINE = {"tick": 0.123457, "offset": 0.000013, "base": A._BASES[0], "rot": 0, "volscale": 0.1}  # prices with 6 significant decimals
 
 
 def explore(item):
